@@ -66,7 +66,9 @@ func checkOverlap(c overlapCase) (nt bool, v *verdict) {
 	get := func(k string) *verdict {
 		r, err := cl.Do(20*time.Second, "GET", k)
 		if err != nil {
-			return &verdict{"no-reply", fmt.Sprintf("GET %s: %v", k, err)}
+			moved, ask := w.Redirects()
+			return &verdict{"no-reply", fmt.Sprintf("GET %s: %v; redirections so far %d/%d, refreshes succeeded %d; goroutines inside the proxy:\n%s", k, err, moved, ask,
+				px.Counter("upstream.slots_refresh.success_total"), vh.Stacks())}
 		}
 		if !ref.Equal(r, ref.NullBulk()) {
 			return &verdict{"reply-differs", fmt.Sprintf("GET %s (a key nobody wrote) answered %s", k, r)}
@@ -92,6 +94,7 @@ func checkOverlap(c overlapCase) (nt bool, v *verdict) {
 	if !ok {
 		return false, nil
 	}
+	tb := px.Counter("upstream.slots_refresh.total")
 	if v := get(k1); v != nil {
 		return false, v
 	}
@@ -109,6 +112,7 @@ func checkOverlap(c overlapCase) (nt bool, v *verdict) {
 		if !ok {
 			continue
 		}
+		tb = px.Counter("upstream.slots_refresh.total") // every refresh that starts from here on is composed after this change
 		if v := get(k); v != nil {
 			return nt, v
 		}
@@ -118,13 +122,28 @@ func checkOverlap(c overlapCase) (nt bool, v *verdict) {
 		}
 		time.Sleep(delay / 3)
 	}
-	// bounded number of refresh rounds, no traffic: until no refresh has completed for a delay and a half
-	last, since := px.Counter("upstream.slots_refresh.success_total"), time.Now()
-	for dl := time.Now().Add(10 * time.Second); time.Since(since) < delay*3/2+150*time.Millisecond && time.Now().Before(dl); time.Sleep(time.Millisecond) {
-		if n := px.Counter("upstream.slots_refresh.success_total"); n != last {
-			last, since = n, time.Now()
+	// bounded number of refresh rounds, no traffic. Not a fixed window (a loaded machine stretches a round): the redirection of
+	// the last read has asked for a refresh, so a refresh that *started* after the last change (tb: the number of started refreshes, read between that change and its read) must complete - the proxy counts
+	// refreshes when they start (total) and when they end (success, failure). Gives up waiting when nothing has been in flight
+	// and nothing has started for 1.5 s (then whatever was going to start has started), or after 20 s.
+	cnt := func() (total, done uint64) {
+		return px.Counter("upstream.slots_refresh.total"), px.Counter("upstream.slots_refresh.success_total") + px.Counter("upstream.slots_refresh.failure_total")
+	}
+	t0 := tb
+	lastTotal, lastDone, since := t0, uint64(0), time.Now()
+	for dl := time.Now().Add(20 * time.Second); time.Now().Before(dl); time.Sleep(time.Millisecond) {
+		total, done := cnt()
+		if total != lastTotal || done != lastDone {
+			lastTotal, lastDone, since = total, done, time.Now()
+		}
+		if done >= t0+1 && total == done && px.Counter("upstream.slots_refresh.success_total") > 0 && time.Since(since) > 20*time.Millisecond {
+			break
+		}
+		if total == done && time.Since(since) > 1500*time.Millisecond {
+			break
 		}
 	}
+	last := px.Counter("upstream.slots_refresh.success_total")
 	m0, a0 := w.Redirects()
 	for _, k := range moved {
 		if v := get(k); v != nil {
